@@ -507,6 +507,12 @@ def judge(d):
                 expect_raise(tag + f" feature named {bad!r}: to_dataframe", bt.to_dataframe, (ValueError,))
             elif kind == "append-non-molecules":
                 expect_raise(tag + " append(non-Molecules)", lambda: real.append(real.pos), (TypeError,))
+            elif kind == "append-extra-column":
+                # an append that must be rejected (the other table has rows and a column this one lacks) leaves this table as it was
+                if n == 0:
+                    continue
+                other = real.subset(slice(0, max(1, n // 2))).with_features(pl.lit(1).alias("extra_col"))
+                expect_raise(tag + " append(table with an extra column)", lambda: real.append(other), (ValueError,))
             elif kind == "index-range":
                 expect_raise(tag + " subset(n)", lambda: real.subset(n + (op["n"] % 3)), (IndexError,))
                 expect_raise(tag + " subset(-1)", lambda: real.subset(-1 - (op["n"] % 3)), (IndexError,))
@@ -592,7 +598,7 @@ def op_strategy(draw, palette):
         op["ci"] = draw(st.integers(0, 5))
         op["bins"] = draw(st.lists(st.sampled_from([-0.5, 0.1, 0.3, 1.0, 1.7, 2.5]), min_size=1, max_size=3))
     elif name == "reject":
-        op["kind"] = draw(st.sampled_from(["wrong-length", "coord-name", "append-non-molecules", "index-range"]))
+        op["kind"] = draw(st.sampled_from(["wrong-length", "coord-name", "append-non-molecules", "index-range", "append-extra-column", "append-extra-column"]))
         op["n"] = draw(st.integers(0, 5))
     return op
 
